@@ -3,6 +3,7 @@ Locality: a complete view whose size covers its present fields reports exactly w
 its first `size` bytes reports (helper lemmas for `C01_locality_partial`, `C20_copy_post_ok_partial`).
 -/
 import Emboss.Lemmas.OkMonoArr
+import Emboss.Model.ViewObs
 namespace Emboss.View
 
 /-- two views of one definition on which an oracle answers identically -/
@@ -199,7 +200,9 @@ theorem tight_agree {m : Module} (hm : moduleWF m = true) {w0 w : SView} (hsd : 
               simp only
               by_cases hc : 0 ≤ s ∧ 0 ≤ off
               · rw [if_pos hc, if_pos hc]
-                have hle := hcov K w sz rfl hsz x f start size ty bo hf hkind k (by omega) off s h1 h3 h2
+                have hmem : f ∈ w.sd.fields := by
+                  unfold StructDef.field at hf; exact List.mem_of_find?_eq_some hf
+                have hle := hcov K w sz rfl hsz f start size ty bo hmem hkind k (by omega) off s h1 h3 h2
                   hc.2 hc.1
                 congr 1
                 exact StLe.sub_eq hst hok0 _ _ (by omega)
@@ -223,5 +226,111 @@ theorem rootView_take_le (sd : StructDef) (ps : List Val) (b : List Nat) (n : Na
     StLe (rootView sd ps (b.take n)).st (rootView sd ps b).st := by
   simp only [rootView, StLe]
   exact List.take_prefix n b
+
+end Emboss.View
+
+namespace Emboss.View
+
+/-- under the hypotheses of `tight_agree` the accessors hand out identical storage -/
+theorem tight_phys {m : Module} (hm : moduleWF m = true) {w0 w : SView} (hsd : w0.sd = w.sd)
+    (hpar : w0.params = w.params) (hst : StLe w0.st w.st) (hok0 : w0.st.ok = true)
+    (hwf : structWF m w.sd = true) (hcov : SizeCovers m w.sd)
+    (K : Nat) (sz : Int) (hsz : (G m (K + 1)).read w [w.sd.sizeField] = some (.int sz))
+    (hlen0 : (w0.st.size : Int) ≥ sz) (k : Nat) (hk : k ≤ K)
+    (f : Field) (start size : Expr) (ty : PType) (bo : ByteOrder)
+    (hf : f ∈ w.sd.fields) (hkind : f.kind = .phys start size ty bo) :
+    physStorage (G m k) w0 f start size = physStorage (G m k) w f start size := by
+  have ha := tight_agree hm hsd hpar hst hok0 hwf hcov K sz hsz hlen0 k (by omega)
+  have henv := envOf_eq hsd hpar ha
+  unfold physStorage
+  have hh : hasField (G m k) w0 f = hasField (G m k) w f := by unfold hasField; rw [henv]
+  rw [hh, henv]
+  cases h1 : hasField (G m k) w f with
+  | none => rfl
+  | some b =>
+    cases b with
+    | false => rfl
+    | true =>
+      cases h2 : evalInt (envOf (G m k) w none) size with
+      | none => rfl
+      | some s =>
+        cases h3 : evalInt (envOf (G m k) w none) start with
+        | none => rfl
+        | some off =>
+          simp only
+          by_cases hc : 0 ≤ s ∧ 0 ≤ off
+          · rw [if_pos hc, if_pos hc]
+            have hle := hcov K w sz rfl hsz f start size ty bo hf hkind k hk off s h1 h3 h2 hc.2 hc.1
+            congr 1
+            exact StLe.sub_eq hst hok0 _ _ (by omega)
+          · rw [if_neg hc, if_neg hc]
+
+theorem typeEquals_congr_left {m : Module} {o : Oracle} (eqView : SView → SView → Bool) {w0 w : SView}
+    (hsd : w0.sd = w.sd) (he : envOf o w0 = envOf o w) (wb : SView) (bo : ByteOrder) :
+    ∀ (ty : PType) (sa sb : Storage),
+      typeEquals o m eqView w0 wb bo ty sa sb = typeEquals o m eqView w wb bo ty sa sb
+  | .scalar k bits req, sa, sb => by
+    unfold typeEquals leafRead valueIsOk
+    rw [he, hsd]
+  | .struct name bits args, sa, sb => by
+    unfold typeEquals
+    rw [he, hsd]
+  | .array e es, sa, sb => by
+    unfold typeEquals
+    have : (fun i => typeEquals o m eqView w0 wb bo e (sa.sub (es * i) es) (sb.sub (es * i) es)) =
+        (fun i => typeEquals o m eqView w wb bo e (sa.sub (es * i) es) (sb.sub (es * i) es)) := by
+      funext i
+      exact typeEquals_congr_left eqView hsd he wb bo e _ _
+    rw [this]
+
+theorem all_congr_mem {α : Type} {p q : α → Bool} : ∀ (l : List α), (∀ a ∈ l, p a = q a) → l.all p = l.all q
+  | [], _ => rfl
+  | a :: l, h => by
+    simp only [List.all_cons]
+    rw [h a List.mem_cons_self, all_congr_mem l (fun b hb => h b (List.mem_cons_of_mem _ hb))]
+
+/-- under the hypotheses of `tight_agree`, `Equals` against any third view cannot tell the two
+views apart -/
+theorem tight_equals {m : Module} (hm : moduleWF m = true) {w0 w : SView} (hsd : w0.sd = w.sd)
+    (hpar : w0.params = w.params) (hst : StLe w0.st w.st) (hok0 : w0.st.ok = true)
+    (hwf : structWF m w.sd = true) (hcov : SizeCovers m w.sd)
+    (K : Nat) (sz : Int) (hsz : (G m (K + 1)).read w [w.sd.sizeField] = some (.int sz))
+    (hlen0 : (w0.st.size : Int) ≥ sz) (k : Nat) (hk : k ≤ K) (wx : SView) :
+    ∀ fuel, viewEquals (G m k) m fuel w0 wx = viewEquals (G m k) m fuel w wx
+  | 0 => rfl
+  | fuel + 1 => by
+    have ha := tight_agree hm hsd hpar hst hok0 hwf hcov K sz hsz hlen0 k (by omega)
+    have henv := envOf_eq hsd hpar ha
+    have he : envOf (G m k) w0 = envOf (G m k) w := funext henv
+    simp only [viewEquals]
+    rw [hsd, hpar]
+    congr 1
+    apply all_congr_mem
+    intro f hf
+    unfold fieldEquals
+    cases hkind : f.kind with
+    | virt v r => rfl
+    | alias t => rfl
+    | phys start size ty bo =>
+      simp only
+      have hh : hasField (G m k) w0 f = hasField (G m k) w f := by unfold hasField; rw [henv]
+      rw [hh, henv, tight_phys hm hsd hpar hst hok0 hwf hcov K sz hsz hlen0 k hk f start size ty bo hf hkind]
+      cases hasField (G m k) w f with
+      | none => rfl
+      | some ha' =>
+        cases hasField (G m k) wx f with
+        | none => rfl
+        | some hb' =>
+          simp only
+          congr 1
+          congr 1
+          cases (if argsKnown (envOf (G m k) w none) ty = true then physStorage (G m k) w f start size
+              else none) with
+          | none => rfl
+          | some sa =>
+            cases (if argsKnown (envOf (G m k) wx none) ty = true then physStorage (G m k) wx f start size
+                else none) with
+            | none => rfl
+            | some sb => exact typeEquals_congr_left _ hsd he wx bo ty sa sb
 
 end Emboss.View
